@@ -162,9 +162,9 @@ contract(_S + '.Request_element.pathsync', props=['C20'], params={'self': RE_OBJ
                                         "result['svec']['relaxable'] == False")],
          modifies=[], use_at_calls=False)
 
-contract('gnpy.tools.xls_utils.correct_cell_int_to_str', trusted=True, props=[], params={'v': opt(string())},
+contract('gnpy.tools.xls_utils.correct_cell_int_to_str', props=['C20'], params={'v': opt(string())},
          ensures=[('text_cells_unchanged', '(result is None) == (v is None) and implies(v is not None, result == v)')], returns=opt(string()), pure=True,
-         note='ASSUMED for text cells (numeric ids 3.0 -> "3" are checked by the bounded stand-in)')
+         note='proved for text and empty cells (numeric ids 3.0 -> "3" are checked by the bounded stand-in: str(int(v)) of a symbolic number is outside the encoding)')
 contract(_S + '.Request.update_attr', name=_S + '.Request.update_attr[is loose? cell]', props=['C20', 'C12', 'C11'],
          params={'self': obj('Request'), 'kwargs': dct_k({'request_id': string(), 'source': string(), 'destination': string(),
                                                           'is_loose': opt(string())})},
